@@ -18,6 +18,25 @@ type CEnv struct {
 	wmCur     *Term
 	qn        *int
 	entryVars map[string]SV // values of the parameters at function entry (for old())
+	prev      *CEnv         // the environment at the head of the current loop iteration (step clauses)
+	st        *State        // when set: type invariants of values read from the heap are added to it as assumptions
+}
+
+// inv records the type invariants (slice header well-formedness, integer
+// ranges) of a value a contract expression read from a heap state.  Every heap
+// state of a path is the heap of a real execution, where these hold.
+func (env *CEnv) inv(v SV) SV {
+	if env.st == nil {
+		return v
+	}
+	tmp := &State{wm: env.st.wm}
+	env.x.assumeTypeInv(tmp, v)
+	for _, a := range tmp.assumes {
+		if !hasBoundVar(a) {
+			env.st.assume(a)
+		}
+	}
+	return v
 }
 
 func (env *CEnv) child() *CEnv {
@@ -125,7 +144,7 @@ func (env *CEnv) fieldOf(v SV, name string, e *CExpr) SV {
 					env.errf("field of local pointer in contract: %s", e)
 				}
 				l := &Loc{Ref: v.T, RefTy: pt.Elem(), Path: []int{i}}
-				return env.x.loadFrom(nil, env.cur, l, false)
+				return env.inv(env.x.loadFrom(nil, env.cur, l, false))
 			}
 		}
 		env.errf("no field %s in %s", name, pt.Elem())
@@ -162,7 +181,7 @@ func (env *CEnv) eval(e *CExpr) SV {
 				// element of a slice of structs / pointers: read through the element heaps
 				i := env.evalInt(e.Y)
 				cp := sv
-				return env.x.loadFrom(nil, env.cur, &Loc{Slice: &cp, Index: i, ElemTy: et}, false)
+				return env.inv(env.x.loadFrom(nil, env.cur, &Loc{Slice: &cp, Index: i, ElemTy: et}, false))
 			}
 		}
 		s := env.resolveSeq(sv)
@@ -206,6 +225,13 @@ func (env *CEnv) eval(e *CExpr) SV {
 		return n.eval(e.X)
 	case "deref":
 		pv := env.eval(e.X)
+		if pv.K == KRef && pv.Loc != nil && pv.Loc.Ref != nil {
+			// interior pointer (&obj.field) into a heap object
+			return env.inv(env.x.loadFrom(nil, env.cur, pv.Loc, false))
+		}
+		if pv.K == KRef && pv.Loc != nil && pv.Loc.Alloc != nil && env.st != nil {
+			return env.x.loadFrom(env.st, env.cur, pv.Loc, false)
+		}
 		if pv.K != KRef || pv.T == nil || pv.Ty == nil {
 			env.errf("cannot dereference %s", e.X)
 		}
@@ -213,7 +239,7 @@ func (env *CEnv) eval(e *CExpr) SV {
 		if !ok {
 			env.errf("dereference of non-pointer %s", e.X)
 		}
-		return env.x.loadFrom(nil, env.cur, &Loc{Ref: pv.T, RefTy: pt.Elem()}, false)
+		return env.inv(env.x.loadFrom(nil, env.cur, &Loc{Ref: pv.T, RefTy: pt.Elem()}, false))
 	case "unop":
 		switch e.Str {
 		case "!":
@@ -432,7 +458,7 @@ func (env *CEnv) call(e *CExpr) SV {
 		for _, a := range e.Args[1:] {
 			args = append(args, env.eval(a))
 		}
-		return env.x.pureCallResult(fid, sigString(f.Ty), sigT.Results().At(0).Type(), args)
+		return env.x.pureCallResult(env.cur, fid, sigString(f.Ty), sigT.Results().At(0).Type(), args)
 	case "ext":
 		// an uninterpreted predicate standing for a dependency (assumed contract, DESIGN 4.2)
 		if len(e.Args) < 1 || e.Args[0].Kind != "str" {
@@ -480,10 +506,70 @@ func (env *CEnv) call(e *CExpr) SV {
 			cs = append(cs, x.frameFormula(k, cur, init, lic[k], env.wmOld))
 		}
 		return boolSV(And(cs...))
+	case "upd":
+		// upd(a, i, v): the ghost array a with a[i] = v (v a bool is stored as 0/1)
+		a := env.eval(e.Args[0])
+		if a.K != KSeq || a.Arr == nil {
+			env.errf("upd: ghost array expected in %s", e)
+		}
+		i := env.evalInt(e.Args[1])
+		v := env.eval(e.Args[2])
+		vt := v.T
+		if v.K == KBool {
+			vt = Ite(v.T, IntC(1), IntC(0))
+		}
+		n := a
+		n.Arr = Store(a.Arr, Add(a.Off, i), vt)
+		return n
+	case "prev":
+		if env.prev == nil {
+			env.errf("prev() is only available in a loop step clause: %s", e)
+		}
+		n := *env.prev
+		n.qn = env.qn
+		// bound variables of enclosing quantifiers stay visible
+		n.vars = map[string]SV{}
+		for k, v := range env.prev.vars {
+			n.vars[k] = v
+		}
+		for k, v := range env.vars {
+			if _, shadow := n.vars[k]; !shadow {
+				n.vars[k] = v
+			}
+		}
+		return n.eval(e.Args[0])
+	case "isstring":
+		a := env.eval(e.Args[0])
+		return boolSV(BoolC(a.K == KSeq && a.Ty != nil && isStringType(a.Ty)))
+	case "atomname":
+		// the name of an x/net/html/atom.Atom (assumed dependency; constants are looked up in the real table)
+		a := env.evalInt(e.Args[0])
+		return atomString(a, types.Typ[types.String])
+	case "lit":
+		// lit(s, "a", "b", ...): the sequence s is one of the literals
+		if len(e.Args) < 2 {
+			env.errf("lit(seq, literals...)")
+		}
+		sq := env.resolveSeq(env.eval(e.Args[0]))
+		var ds []*Term
+		for _, a := range e.Args[1:] {
+			if a.Kind != "str" {
+				env.errf("lit: literal expected in %s", e)
+			}
+			cs := []*Term{Eq(sq.Len, IntC(int64(len(a.Str))))}
+			for i := 0; i < len(a.Str); i++ {
+				cs = append(cs, Eq(Select(sq.Arr, Add(sq.Off, IntC(int64(i)))), IntC(int64(a.Str[i]))))
+			}
+			ds = append(ds, And(cs...))
+		}
+		return boolSV(Or(ds...))
 	case "isnil":
 		a := env.eval(e.Args[0])
 		if a.K == KSeq {
 			return boolSV(Eq(a.Id, IntC(0)))
+		}
+		if a.K == KRef && a.Loc != nil {
+			return boolSV(tFalse) // the address of a variable or field is never nil
 		}
 		return boolSV(Eq(a.T, IntC(0)))
 	}
@@ -501,7 +587,14 @@ func (env *CEnv) call(e *CExpr) SV {
 			}
 		}
 		if !sf.Recursive {
-			return env.x.evalSpecBody(sf, args, env.qn)
+			// a non-recursive spec is a macro: its body may read the heap of the calling context
+			n := *env
+			n.vars = map[string]SV{}
+			for i, p := range sf.Params {
+				n.vars[p.Name] = args[i]
+			}
+			n.entryVars = nil
+			return n.eval(sf.Body)
 		}
 		var flat []*Term
 		for i, a := range args {
